@@ -193,7 +193,7 @@ def shard(args):
                             names[id(x_)] = f"{n_}.{a_}[{getattr(k_, 'name', k_)}]"
             def _show(d):
                 if isinstance(d, tuple) and d and d[0] == "val":
-                    return {"id": names.get(d[1], d[1]), "value": str(d[2])[:80], "anc": [names.get(x, x) for x in d[4]] if len(d) > 4 else None,
+                    return {"id": names.get(d[1], d[1]), "value": str(d[2])[:80], "value_hash": hash(str(d[2])), "label": d[3], "anc": [names.get(x, x) for x in d[4]] if len(d) > 4 else None,
                             "chi": [names.get(x, x) for x in d[5]] if len(d) > 5 else None}
                 return str(d)[:300]
             diag = [{"key": list(k), "before": _show(before.get(k)), "after": _show(after.get(k))} for k in changed[:4]]
@@ -228,6 +228,8 @@ def shard(args):
                     out["violations"].append({"signature": "C05:toggles-do-not-return-to-baseline", "detail": f"word {word}: {snapshot.diff(before, snapshot.deep(live.rs.objs))[:3]}",
                                               "replay": dict(replay, word=word)})
             except Exception as e:  # noqa
+                if "lean driver failed" in str(e):
+                    raise          # infrastructure, never a verdict
                 out["violations"].append({"signature": f"C05:toggle-raises:{err_enum(e)}", "detail": f"word {word}: {e}", "replay": dict(replay, word=word)})
         if "C06" in which:
             # twins
